@@ -149,7 +149,7 @@ def hunt_segmentation(ctx, streams):
 
 def run(ctx: core.Ctx):
     rng = ctx.rng
-    pr = core.check_proofs(ctx, "Props/C04")
+    pr = core.check_proofs(ctx, "Props/C04", headers=[HEADER])
     samples = []
     disagreements = []
     distinct = set()
